@@ -8,6 +8,7 @@ mod c07;
 mod c08;
 mod daywalk;
 mod c03;
+mod c04;
 mod c06;
 mod c10;
 mod c18;
@@ -66,6 +67,7 @@ fn main() {
     "C01" => c01::run(&ctx),
     "C02" => c02::run(&ctx),
     "C03" => c03::run(&ctx),
+    "C04" => c04::run(&ctx),
     "C06" => c06::run(&ctx),
     "C07" => c07::run(&ctx),
     "C08" => c08::run(&ctx),
